@@ -136,6 +136,48 @@ def same_square(a, b):
     return an * bd == bn * ad
 
 
+def poly_at(p, point):
+    tot = Fraction(0)
+    for m, c in p.t.items():
+        term = Fraction(c)
+        for sname, e in m:
+            term *= Fraction(point[sname]) ** e
+        tot += term
+    return tot
+
+
+def sign_at(v, point):
+    """sign (+1 / -1 / 0) of the rational part of v at a rational point where every square-root argument is positive (the roots
+    are then positive reals and do not change the sign); None when a root argument is not positive there or the denominator vanishes"""
+    for k, (p, e) in v.roots.items():
+        if poly_at(p, point) <= 0:
+            return None
+    d = poly_at(v.den, point)
+    if d == 0:
+        return None
+    x = poly_at(v.num, point) / d
+    return (x > 0) - (x < 0)
+
+
+def same_function(a, b, points):
+    """a and b are the same function: equal rational parts when neither has roots, else equal squares and equal sign at generic points"""
+    if not a.roots and not b.roots:
+        return a.num * b.den == b.num * a.den, 'it is not the same rational function'
+    if not same_square(a, b):
+        return False, 'its square is not the square of the definition (another function of the inputs)'
+    decided = False
+    for pt in points:
+        sa_, sb_ = sign_at(a, pt), sign_at(b, pt)
+        if sa_ is None or sb_ is None or sb_ == 0:
+            continue
+        decided = True
+        if sa_ != sb_:
+            return False, 'the sign is reversed'
+    if not decided:
+        raise Unknown('sign not determined at the sample points')
+    return True, ''
+
+
 def sign_profile(v, lead):
     """sign of the coefficient of the term linear in `lead` in the numerator over a denominator whose coefficients are all positive
     (accumulated second moments, counts): +1 / -1, None when not determined that simply"""
@@ -490,12 +532,24 @@ class Q:
         return Q(RF(-self.rf.num, self.rf.den, self.rf.roots))
 
     def __pow__(self, k):
-        if not isinstance(k, int) or not 0 <= k <= 4:
+        if isinstance(k, float) and (2 * k) == int(2 * k):
+            k = Fraction(int(2 * k), 2)
+        if isinstance(k, Fraction) and k.denominator == 2 and 0 < k <= 4:
+            out = self.sqrt()
+            for _ in range((k.numerator - 1) // 2):
+                out = out * self
+            return out
+        if isinstance(k, Fraction) and k.denominator == 1:
+            k = int(k)
+        if not isinstance(k, int) or isinstance(k, bool) or not 0 <= k <= 6:
             raise Unknown('power')
         out = Q.const(1)
         for _ in range(k):
             out = out * self
         return out
+
+    def sqrt(self):
+        return Q(Eval({}).sqrt(self.rf))
 
     def log(self):
         for arg, name in Q.atoms:
